@@ -8,6 +8,7 @@ From Coq Require Import Reals.
 From Flocq Require Import Core.
 From Flocq Require BinarySingleNaN.
 From AJ Require Import Proofs.FloatErr.
+From AJ Require Proofs.FloatConv.
 Local Open Scope Z_scope.
 
 (* integer stored, integral target: the value when it fits, 0 otherwise — all 8 widths/signednesses *)
@@ -73,6 +74,43 @@ Proof.
   destruct Hf as [-> | ->]; [exact good_F32 | exact good_F64].
 Qed.
 Print Assumptions C13_int_to_float_exact_when_it_fits.
+
+(* as<float>() of a stored double is the IEEE-754 round-to-nearest-even float of its value, or the infinity of the same
+   sign when that rounding leaves the float range (from 2^128 - 2^103 on); as<double>() of a stored float is exact; a
+   value read through its own type is unchanged (over the reals, through Flocq: standard library Reals axioms) *)
+Theorem C13_double_to_float_correctly_rounded : forall c x, valid F64 x -> FloatModel.is_finite x = true ->
+  let r := BinarySingleNaN.SF2R radix2 x in
+  if Rlt_bool (Rabs (round radix2 (FLT_exp (-149) 24) ZnearestE r)) (bpow radix2 128)
+  then BinarySingleNaN.SF2R radix2 (as_float c F32 (JDouble x)) = round radix2 (FLT_exp (-149) 24) ZnearestE r /\
+       valid F32 (as_float c F32 (JDouble x)) /\
+       FloatModel.is_finite (as_float c F32 (JDouble x)) = true
+  else as_float c F32 (JDouble x) = S754_infinity (BinarySingleNaN.sign_SF x).
+Proof. exact FloatConv.as_float_narrow. Qed.
+Print Assumptions C13_double_to_float_correctly_rounded.
+
+Theorem C13_double_to_float_overflow_threshold : forall x, valid F64 x -> FloatModel.is_finite x = true ->
+  ((Rabs (BinarySingleNaN.SF2R radix2 x) < bpow radix2 128 - bpow radix2 103)%R ->
+     BinarySingleNaN.SF2R radix2 (fconv F32 x) = round radix2 (FLT_exp (-149) 24) ZnearestE (BinarySingleNaN.SF2R radix2 x) /\
+     valid F32 (fconv F32 x) /\ FloatModel.is_finite (fconv F32 x) = true) /\
+  ((bpow radix2 128 - bpow radix2 103 <= Rabs (BinarySingleNaN.SF2R radix2 x))%R ->
+     fconv F32 x = S754_infinity (BinarySingleNaN.sign_SF x)).
+Proof. exact FloatConv.fconv_narrow_threshold. Qed.
+Print Assumptions C13_double_to_float_overflow_threshold.
+
+Theorem C13_float_to_double_exact : forall c x, valid F32 x -> FloatModel.is_finite x = true ->
+  BinarySingleNaN.SF2R radix2 (as_float c F64 (JFloat x)) = BinarySingleNaN.SF2R radix2 x /\
+  valid F64 (as_float c F64 (JFloat x)) /\ FloatModel.is_finite (as_float c F64 (JFloat x)) = true.
+Proof. exact FloatConv.as_float_widen. Qed.
+Print Assumptions C13_float_to_double_exact.
+
+Theorem C13_own_type_unchanged : forall c x,
+  (valid F32 x -> as_float c F32 (JFloat x) = x) /\ (valid F64 x -> as_float c F64 (JDouble x) = x).
+Proof. exact FloatConv.as_float_same. Qed.
+Print Assumptions C13_own_type_unchanged.
+
+Theorem C13_float_double_float_roundtrip : forall x, valid F32 x -> fconv F32 (fconv F64 x) = x.
+Proof. exact FloatConv.fconv_roundtrip. Qed.
+Print Assumptions C13_float_double_float_roundtrip.
 
 (* strings convert by the same rules whatever their length: never a table overrun *)
 Theorem C13_strings_any_length : forall cf s, parse_number cf s <> NumFault.
